@@ -32,6 +32,7 @@ type C15Case struct {
 	Reads    []int    `json:"reads"`
 	Once     bool     `json:"once,omitempty"`   // the source fails once and then carries on delivering (the Reader's error must still stick)
 	OnlyK    int      `json:"only_k,omitempty"` // replay: just this k (-1 = all)
+	Entry    string   `json:"entry,omitempty"`  // "" = constructor; "reset" = a Reader that has read part of another stream is Reset onto the failing source
 }
 
 func sourceErr(kind int) error {
@@ -83,6 +84,23 @@ func drawC15(t *rapid.T) C15Case {
 			m.Hdr.Comment = "comment"
 		}
 		c.Members = append(c.Members, m)
+	}
+	if c.Pkg == "zlib" && rapid.IntRange(0, 2).Draw(t, "zdict") == 0 {
+		// FDICT streams: the dictionary id is read from the source too
+		d := gen.Recipe{Segs: []gen.Seg{{Kind: "text", N: rapid.IntRange(1, 400).Draw(t, "dlen"), Seed: 11}}}
+		c.Members[0].Dict = &d
+		c.Members[0].Enc = "std"
+		if stdZlibDictBroken(c.Members[0].Level, recipeBytes(&d), c.Members[0].Data.Bytes(), c.Members[0].Ops) {
+			c.Members[0].Dict = nil
+		}
+	}
+	if c.Pkg == "gzip" {
+		for i := range c.Members {
+			c.Members[i].HCRC = rapid.IntRange(0, 3).Draw(t, "hcrc") == 0
+		}
+	}
+	if rapid.IntRange(0, 2).Draw(t, "entry") == 0 {
+		c.Entry = "reset"
 	}
 	c.ErrKind = rapid.IntRange(0, 8).Draw(t, "errkind")
 	c.FailWith = rapid.Bool().Draw(t, "failwith")
@@ -163,15 +181,48 @@ func checkC15(c C15Case, record func(k int, nontrivial bool, labels []string)) (
 		what := fmt.Sprintf("%s Reader, source fails with %q after delivering %d of %d bytes", c.Pkg, want, k, len(z))
 		var r io.Reader
 		var openErr error
-		switch c.Pkg {
-		case "gzip":
-			gz, e := fgzip.NewReader(under)
-			r, openErr = gz, e
-		case "zlib":
-			zr, e := fzlib.NewReader(under)
-			r, openErr = zr, e
-		default:
-			r = fflate.NewReader(under)
+		var zdict []byte
+		if c.Pkg == "zlib" {
+			zdict = recipeBytes(c.Members[0].Dict)
+		}
+		if c.Entry == "reset" {
+			// a Reader that stopped in the middle of another (valid) stream
+			other, _ := Member{Enc: "std", Level: 6, Data: genText(3000, 5)}.build(c.Pkg)
+			if c.Pkg == "flate" {
+				other, _, _ = flushTrace("flate", Member{Enc: "std", Level: 6, Data: genText(3000, 5), Ops: []gen.Op{{K: "W", N: 3000}}})
+			}
+			few := make([]byte, 100)
+			switch c.Pkg {
+			case "gzip":
+				gz, e := fgzip.NewReader(bytes.NewReader(other))
+				if e != nil {
+					return &oracleError{"C15: cannot open the earlier stream: " + e.Error()}
+				}
+				io.ReadFull(gz, few)
+				r, openErr = gz, gz.Reset(under)
+			case "zlib":
+				zr, e := fzlib.NewReader(bytes.NewReader(other))
+				if e != nil {
+					return &oracleError{"C15: cannot open the earlier stream: " + e.Error()}
+				}
+				io.ReadFull(zr, few)
+				r, openErr = zr, zr.(fzlib.Resetter).Reset(under, zdict)
+			default:
+				fr := fflate.NewReader(bytes.NewReader(other))
+				io.ReadFull(fr, few)
+				r, openErr = fr, fr.(fflate.Resetter).Reset(under, nil)
+			}
+		} else {
+			switch c.Pkg {
+			case "gzip":
+				gz, e := fgzip.NewReader(under)
+				r, openErr = gz, e
+			case "zlib":
+				zr, e := fzlib.NewReaderDict(under, zdict)
+				r, openErr = zr, e
+			default:
+				r = fflate.NewReader(under)
+			}
 		}
 		var out []byte
 		rerr := openErr
@@ -190,7 +241,7 @@ func checkC15(c C15Case, record func(k int, nontrivial bool, labels []string)) (
 			}
 		}
 		if record != nil {
-			record(k, k >= 1, []string{"pkg:" + c.Pkg, fmt.Sprintf("bufio:%d", c.BufSize), fmt.Sprintf("errkind:%d", c.ErrKind)})
+			record(k, k >= 1, []string{"pkg:" + c.Pkg, fmt.Sprintf("bufio:%d", c.BufSize), fmt.Sprintf("errkind:%d", c.ErrKind), "entry:" + c.Entry})
 		}
 	}
 	return nil
